@@ -113,6 +113,11 @@ func C15() int {
 	for li := range logs {
 		pool := g.FnPool()
 		dbm, collm := "dbfn"+g.Token()[2:8], "coll"+g.Token()[2:7]
+		if li%8 == 5 {
+			// collection names may hold characters that mean something in a regular expression; the
+			// configured prefix is plain text all the same
+			collm = []string{"c+(", "c[1]*", "c|x?", "c^$", "c{2}\\"}[li/8%5] + collm + []string{")+", "$main", ".*", "|", "(x)"}[li/8%5]
+		}
 		var prefix, rel string
 		switch li % 4 {
 		case 0:
@@ -146,7 +151,14 @@ func C15() int {
 			db, coll, matches, r := dbm, collm, true, rel
 			switch k % 5 {
 			case 3: // foreign namespaces
-				switch (li + k) % 4 {
+				switch (li + k) % 6 {
+				case 4, 5:
+					// differs from the configured prefix only where the prefix has its '.'
+					if strings.Contains(prefix, ".") {
+						db, coll, r = dbm+[]string{"_", "X", "-", "0"}[(li+k)%4]+collm, "items", "foreign:differs-only-at-the-dot-of-the-prefix"
+					} else {
+						db, r = "zz"+g.Token()[2:6], "foreign:different-db"
+					}
 				case 0:
 					db, r = "other"+dbm, "foreign:prefix-is-an-infix"
 				case 1:
